@@ -75,6 +75,7 @@ STUB_LIMITED_IO = (
     "LimitedStringIO.write(s): s is realized (solver-enumerated) before the real method runs, "
     "because the C-level StringIO.write it delegates to rejects str proxies"
 )
+STUB_INTERN = "sys.intern := identity (pathlib interns path segments; C intern rejects str proxies)"
 if os.environ.get("VF_WORKER") == "1":  # pragma: no cover - exercised in workers only
     from crosshair import realize as _realize
     from crosshair import register_patch as _register_patch
@@ -97,3 +98,7 @@ if os.environ.get("VF_WORKER") == "1":  # pragma: no cover - exercised in worker
             self.__dict__["_vf_in_write"] = False
 
     _register_patch(_LSIO.write, _lsio_write_realized)
+
+    # pathlib interns every path segment (sys.intern is C and rejects proxies); interning
+    # is semantically the identity on str.
+    _register_patch(sys.intern, lambda s: s)
